@@ -35,6 +35,7 @@ type PodState struct {
 	SideRestarts      int32 `json:"sideRestarts,omitempty"`
 	SideRestartAgoSec int   `json:"sideRestartAgoSec,omitempty"`
 	StartAgoSec int  `json:"startAgoSec,omitempty"`
+	Ephemeral bool   `json:"ephemeral,omitempty"` // carries the status of an ephemeral (debug) container
 	Suffix    string `json:"suffix,omitempty"`
 }
 
@@ -136,8 +137,19 @@ func (s *Sim) finishInjected(p *corev1.Pod, nodeName string, ps PodState) {
 		p.Status.Reason = "Evicted"
 	case "unknown":
 		p.Status.Phase = corev1.PodUnknown
+	case "succeeded":
+		// all containers exited 0 (graceful node shutdown, restartPolicy OnFailure): the pod still exists
+		// and still occupies its node
+		p.Status.Phase = corev1.PodSucceeded
+		p.Status.StartTime = &st
+		p.Status.ContainerStatuses = mkCS(corev1.ContainerState{Terminated: &corev1.ContainerStateTerminated{Reason: "Completed", ExitCode: 0, FinishedAt: st}}, false)
+		p.Status.Conditions = append(p.Status.Conditions, corev1.PodCondition{Type: corev1.PodReady, Status: corev1.ConditionFalse, Reason: "PodCompleted", LastTransitionTime: st})
 	default:
 		panic("pod state " + ps.Kind)
+	}
+	if ps.Ephemeral && len(p.Status.ContainerStatuses) > 0 {
+		// somebody attached a debug container: a healthy, never restarted ephemeral container
+		p.Status.EphemeralContainerStatuses = []corev1.ContainerStatus{{Name: "debugger", Image: "busybox:1", Ready: false, State: corev1.ContainerState{Running: &corev1.ContainerStateRunning{StartedAt: metav1.NewTime(now.Add(-10 * time.Second))}}}}
 	}
 	if ps.InitRestarts > 0 && ps.InitWaiting == "" {
 		ago := time.Duration(ps.InitRestartAgoSec) * time.Second
